@@ -38,6 +38,13 @@ func (c c10Live) writeDst() string {
 }
 
 func (c c10Live) expectation() string {
+	if (c.Fault == "read-syscall" || c.Fault == "write-syscall") && (c.Errno == "EPERM" || c.Errno == "EACCES") {
+		// a permission error is a system call error too - the one kind that is not recoverable
+		if c.Fault == "write-syscall" && c.WriteDst == "multicast" && c.N == 0 {
+			return "either" // (the initial RA: fatal anyway, but see below)
+		}
+		return "fatal"
+	}
 	switch c.Fault {
 	case "timeouts":
 		if c.N >= 5 {
@@ -125,7 +132,7 @@ func c10LiveProp(t *testing.T, k *verifkit.Kit) func(c c10Live) error {
 		} else {
 			cfg := c09Cfg()
 			r := runAdvertiser(t, advScenario{Cfg: cfg, Fwd0: true, Events: events, StopNS: c.StopNS, Terminate: c.Terminate, Lat: lat, DialFail: dial,
-				NoStop: c.StopNS == 0, WaitNS: int64(200 * time.Second)}, nil)
+				NoStop: c.StopNS == 0, WaitNS: int64(200*time.Second) + 4*c.LatNS}, nil)
 			w, returned, retAt, retErr, stopAt, reads, writes, panicV = r.W, r.Returned, r.RetAt, r.RetErr, r.StopAt, r.Reads, r.Writes, r.Panic
 		}
 		if panicV != nil || w == nil {
@@ -223,6 +230,13 @@ func c10LiveProp(t *testing.T, k *verifkit.Kit) func(c c10Live) error {
 		}
 		// a cancellation at any point produces a prompt clean return
 		if c.StopNS > 0 && !(returned && retAt < stopAt) {
+			// ... which a new connection is not: whatever ends the task after the stop request, nothing is dialled any more
+			// (a dial at the very instant of the stop may have begun before it)
+			for i, d := range dials {
+				if d > stopAt {
+					return verifkit.Violf("C10/dial-after-cancellation", "stop at %v, yet dial attempt %d begins at %v\n%s", stopAt, i, d, tl)
+				}
+			}
 			if !returned || retAt > stopAt+bound+3*time.Second {
 				return verifkit.Violf("C10/cancellation-not-prompt", "stop at %v: Run returned=%v at %v\n%s", stopAt, returned, retAt, tl)
 			}
@@ -268,10 +282,10 @@ func c10GenLive(t *rapid.T) c10Live {
 	} else if rapid.IntRange(0, 3).Draw(t, "stop") != 0 {
 		c.StopNS = c.FaultNS + rapid.SampledFrom([]int64{1, 100 * int64(time.Millisecond), s, 5 * s, 20 * s}).Draw(t, "stoprel")
 	}
-	c.LatNS = rapid.SampledFrom([]int64{0, 0, int64(time.Millisecond), 200 * int64(time.Millisecond)}).Draw(t, "lat")
+	c.LatNS = rapid.SampledFrom([]int64{0, 0, int64(time.Millisecond), 200 * int64(time.Millisecond), 0, int64(time.Millisecond), 5 * s, 40 * s}).Draw(t, "lat")
 	if c.Fault == "read-syscall" || c.Fault == "write-syscall" {
 		// which system call error: all of them are "a system call error other than a permission error"
-		c.Errno = rapid.SampledFrom([]string{"", "EINTR", "EMFILE", "ENFILE", "ENOBUFS", "EIO", "ENODEV", "ENETDOWN"}).Draw(t, "errno")
+		c.Errno = rapid.SampledFrom([]string{"", "EINTR", "EMFILE", "ENFILE", "ENOBUFS", "EIO", "ENODEV", "ENETDOWN", "ENETUNREACH", "EADDRNOTAVAIL", "ENOMEM", "EMSGSIZE", "EPERM", "EACCES"}).Draw(t, "errno")
 	}
 	c.Terminate = rapid.Bool().Draw(t, "terminate")
 	return c
